@@ -157,6 +157,12 @@ def bracket_events(pat, noescape):
                     return ev
                 j += 1
             if pat[j + 1:j + 2] == b"-" and pat[j + 2:j + 3] not in (b"]", b""):
+                # `[.`, `[=`, `[:` as the END of a range and never closed (`[a-[.]`): same shape as above
+                if pat[j + 2:j + 3] == b"[" and pat[j + 3:j + 4] in (b":", b".", b"="):
+                    x = pat[j + 3:j + 4]
+                    k = pat.find(x, j + 4)
+                    if k < 0 or pat[k + 1:k + 2] != b"]":
+                        ev.add("open-unterminated")
                 if pat[j + 2:j + 3] == b"\\" and not noescape:
                     ev.add("bs")
                     j += 1
